@@ -492,6 +492,8 @@ pub fn main(args: &[String]) -> i32 {
         "C18" => Some(("cache", 32, 6, 512, 8)),
         "C13" => Some(("lazy", 0, 0, 96, 6)), // thorough tier only
         "C05" => Some(("io", 0, 0, 48, 8)),   // thorough tier only
+        "C16" => Some(("arena", 12, 2, 128, 3)),
+        "C15" => Some(("dom", 0, 0, 32, 3)),  // thorough tier only
         _ => None,
     };
     if let (Some((msim, qs, qc, ts, tc)), false) = (miri_plan, args.iter().any(|a| a == "--no-miri")) {
